@@ -120,7 +120,7 @@ def gen_case(rng, rates, sep, aliases, targets, connectives=True):
     return '%s / %s' % (xt, yt), 'ratio', ('number', want, abs(want))
 
 
-def judge(slot, exp):
+def judge(slot, exp, exact=False):
     k = mon.kind(slot)
     if exp[0] == 'money':
         _, code, want, scale = exp
@@ -128,6 +128,10 @@ def judge(slot, exp):
             return 'expected %r %s, got %s' % (float(want), code, mon.describe(slot))
         if slot['v']['code'].lower() != code:
             return 'expected money in %s, got %s' % (code, mon.describe(slot))
+        if exact:
+            if mon.fval(slot) != float(want):
+                return 'an amount converted into its own currency must stay the same amount: expected %r %s, got %r' % (float(want), code, mon.fval(slot))
+            return None
         if not mon.close(mon.fval(slot), want, scale if scale else 1):
             return 'expected %r %s, got %r' % (float(want), code, mon.fval(slot))
         return None
@@ -267,7 +271,7 @@ def run_shard(ctx):
                 if ops[idx].get('via_session'):
                     res.count('evaluations_through_the_long_lived_session')
                 res.distinct.add(sep, version and (idx, ctx.shard, res.cases), text)
-                why = judge(slot, exp)
+                why = judge(slot, exp, exact=(cls == 'convert-same'))
                 if why is None:
                     res.count('ok')
                     if res.cases % 499 == 0:
